@@ -50,7 +50,7 @@ def filters(chk, prop):
             if ex_.check(res != spec):
                 o.verdict = 'violated'
                 o.model = common.model_dict(ex_.solver.model(), {'res': E.res, 'top': E.top, 'fe': E.fe, 're': E.re, 'sc': E.sc.sc,
-                                                                 'step': E.sc.step, 'hook': E.sc.hook, 'returned': res})
+                                                                 'step': E.sc.step, 'hook': E.sc.hook, 'ret': E.sc.ret, 'cur': E.sc.cur, 'left': E.sc.left, 'returned': res})
                 o.detail = 'filter accepts a different set of events'
         ex.explore(run, on_end)
         if o.verdict == 'violated':
@@ -70,6 +70,8 @@ def confirm_filter(chk, o, prop, which, ix):
     path = os.path.join(d, '%s-repeat-filter-%s.script' % (prop, which))
     lines = ['mode events', 'wrapper repeat_%s' % which, 'bg 1', 'own 1']
     ev = None
+    # the item's Option<Retries> as the model has it (values shortened to what the driver accepts)
+    rtok = 'r=-' if not m.get('ret') else 'r=%d/%d' % (min(int(m.get('cur') or 0), 1000), min(int(m.get('left') or 0), 1000))
     if m['res'] == 1:
         ev = 'ev parse_error'
     else:
@@ -96,12 +98,12 @@ def confirm_filter(chk, o, prop, which, ix):
                     lines.append('rule 1')
                 sc = inv(ix.Sc)[m['sc']]
                 if sc in ('Started', 'Finished'):
-                    ev = 'ev %s r=-' % sc.lower()
+                    ev = ('ev %s ' % sc.lower()) + rtok
                 elif sc == 'Hook':
-                    ev = 'ev hook after %s r=-' % inv(ix.Hook)[m['hook']].lower()
+                    ev = ('ev hook after %s ' % inv(ix.Hook)[m['hook']].lower()) + rtok
                 elif sc in ('Background', 'Step'):
                     k = inv(ix.Step)[m['step']].lower()
-                    ev = 'ev %s 0 %s%s r=-' % ('bg' if sc == 'Background' else 'step', k, ' panic' if k == 'failed' else '')
+                    ev = ('ev %s 0 %s%s ' % ('bg' if sc == 'Background' else 'step', k, ' panic' if k == 'failed' else '')) + rtok
     if ev is None:
         o.verdict = 'inconclusive'
         o.detail += ' | counterexample item not scriptable'
